@@ -584,6 +584,10 @@ func (self Node) Fields(ids []PathNode, rootLayer bool, msgDesc *proto.MessageDe
 			return errNode(meta.ErrRead, "", it.Err)
 		}
 		f := msgDesc.ByNumber(i)
+		if f == nil {
+			// a field the descriptor does not declare: already skipped by it.Next
+			continue
+		}
 		typDesc := f.Type()
 		if typDesc.IsMap() || typDesc.IsList() {
 			it.p.Read = tagPos
